@@ -374,8 +374,10 @@ def clauses(tier, seed):
 
 
 def _pyvc_clauses():
+  from contracts import conformance_contracts as _conf
+  _extra = [_conf.clauses()[k] for k in ['C02', 'C02b']]
   from contracts import fourier_contracts, grid_contracts
-  return [c for c in fourier_contracts.clauses() if any(k in c.name for k in ('shift ==', 'real_basis_derivative pairing', 'with_zero_imag pairing', 'canary'))] + grid_contracts.clauses()
+  return [c for c in fourier_contracts.clauses() if any(k in c.name for k in ('shift ==', 'real_basis_derivative pairing', 'with_zero_imag pairing', 'canary'))] + grid_contracts.clauses() + _extra
 
 
 MANIFEST = {
